@@ -47,6 +47,11 @@ pub fn families() -> Vec<Family> {
         Family { name: "minimal-headers-request", entry: ReqCfg, cfg: 0, gen: |n| rep(b"GET / HTTP/1.1\n", b"a:\n", n, b"\n") },
         Family { name: "minimal-headers-response", entry: RespCfg, cfg: 0, gen: |n| rep(b"HTTP/1.1 200\n", b"b:\n", n, b"\n") },
         Family { name: "huge-obs-text-reason", entry: RespCfg, cfg: 0, gen: |n| rep(b"HTTP/1.1 200 ", b"\xe9", n, b"\r\n\r\n") },
+        Family { name: "mix-long-first-line-then-folds", entry: RespCfg, cfg: C_FOLDING, gen: |n| { let mut v = rep(b"HTTP/1.1 200 OK\r\nH: ", b"x", n / 2, b""); v.extend(rep(b"", b"\r\n y", n / 2, b"\r\n\r\n")); v } },
+        Family { name: "mix-long-first-header-then-many", entry: ReqCfg, cfg: 0, gen: |n| { let mut v = rep(b"GET / HTTP/1.1\r\nBig: ", b"v", n / 2, b"\r\n"); v.extend(rep(b"", b"a:b\r\n", n / 2, b"\r\n")); v } },
+        Family { name: "mix-ignored-and-valid-lines", entry: RespCfg, cfg: C_IGNORE_RESP, gen: |n| rep(b"HTTP/1.1 200 OK\r\n", b"bad line\r\nk: v\r\n", n, b"\r\n") },
+        Family { name: "mix-whitespace-after-many-colons", entry: ReqCfg, cfg: 0, gen: |n| rep(b"GET / HTTP/1.1\r\n", b"k:        \t        v   \r\n", n, b"\r\n") },
+        Family { name: "mix-long-target-then-many-headers", entry: ReqCfg, cfg: 0, gen: |n| { let mut v = rep(b"GET /", "é".as_bytes(), n / 2, b" HTTP/1.1\r\n"); v.extend(rep(b"", b"a:b\r\n", n / 2, b"\r\n")); v } },
         Family { name: "empty-value-headers", entry: RespCfg, cfg: 0, gen: |n| rep(RS, b"a:\r\n", n, b"\r\n") },
         Family { name: "folded-lines", entry: RespCfg, cfg: C_FOLDING, gen: |n| rep(b"HTTP/1.1 200 OK\r\nH: x\r\n", b" y\r\n", n, b"\r\n") },
         Family { name: "folded-empty-lines", entry: RespCfg, cfg: C_FOLDING, gen: |n| rep(b"HTTP/1.1 200 OK\r\nH:\r\n", b" \r\n", n, b"\r\n") },
